@@ -4,8 +4,10 @@ package main
 import (
 	"context"
 	"fmt"
+	"runtime"
 	"sort"
 	"strings"
+	"sync"
 	"time"
 
 	"github.com/go-logr/logr"
@@ -289,6 +291,7 @@ func runHistory(k *vf.Case) {
 	}
 
 	nSets := 2 + r.Intn(8)
+	valueProfile := r.Intn(3)
 	cycles := 5 + r.Intn(56)
 	if k.C.Tier == "quick" && cycles > 30 {
 		cycles = 5 + r.Intn(26)
@@ -341,6 +344,16 @@ func runHistory(k *vf.Case) {
 				}
 				for n := 1 + r.Intn(4); n > 0; n-- {
 					v := int64(1 + r.Intn(2000))
+					switch valueProfile {
+					case 1: // tiny values first (index -1 and its neighbours), far larger ones later: long rescales
+						if cyc < 2 {
+							v = int64(1 + r.Intn(3))
+						} else {
+							v = int64(1000 + r.Intn(1_000_000))
+						}
+					case 2:
+						v = vf.Pick(r, []int64{1, 1, 2, 3, 5, 1000, 65536, 2000, 1 << 40})
+					}
 					if si.kind == "updown" && r.Bool() {
 						v = -v
 					}
@@ -808,6 +821,156 @@ func runWide(k *vf.Case) {
 	mp.Shutdown(ctx)
 }
 
+// runConcurrent: the same comparison after a history in which goroutines keep recording while both readers
+// collect. Every measurement must end up in exactly one delta collection, so at the quiescent end the
+// cumulative point (count, sum, per-bucket counts) still equals the running total of the deltas.
+func runConcurrent(k *vf.Case) {
+	r := k.R
+	ctx := context.Background()
+	del := sdkmetric.NewManualReader(sdkmetric.WithTemporalitySelector(func(sdkmetric.InstrumentKind) metricdata.Temporality { return metricdata.DeltaTemporality }))
+	cum := sdkmetric.NewManualReader()
+	mp := sdkmetric.NewMeterProvider(sdkmetric.WithReader(del), sdkmetric.WithReader(cum),
+		sdkmetric.WithView(sdkmetric.NewView(sdkmetric.Instrument{Name: "e"}, sdkmetric.Stream{Aggregation: sdkmetric.AggregationBase2ExponentialHistogram{MaxSize: 160, MaxScale: 20}})))
+	m := mp.Meter("conc")
+	h, _ := m.Float64Histogram("h")
+	e, _ := m.Int64Histogram("e")
+	c, _ := m.Int64Counter("c")
+	G := vf.Pick(r, []int{2, 4, 8})
+	nSets := 1 + r.Intn(3)
+	per := 300 + r.Intn(1500)
+	var wg sync.WaitGroup
+	release := make(chan struct{})
+	for g := 0; g < G; g++ {
+		seed := r.U64()
+		wg.Add(1)
+		go func() {
+			defer wg.Done()
+			gr := vf.NewRNG(seed)
+			<-release
+			for i := 0; i < per; i++ {
+				o := metric.WithAttributeSet(attribute.NewSet(attribute.Int("sid", gr.Intn(nSets))))
+				v := int64(1 + gr.Intn(20000))
+				h.Record(ctx, float64(v), o)
+				e.Record(ctx, v, o)
+				c.Add(ctx, v, o)
+			}
+		}()
+	}
+	type tot struct {
+		count   uint64
+		sum     float64
+		buckets []uint64
+	}
+	running := map[string]*tot{} // stream|set -> running delta total
+	latest := map[string]*tot{}  // stream|set -> latest cumulative
+	collect := func() bool {
+		var rd, rc metricdata.ResourceMetrics
+		if err := del.Collect(ctx, &rd); err != nil {
+			k.Violate("collect-error", "concurrent delta", err.Error(), nil)
+			return false
+		}
+		if err := cum.Collect(ctx, &rc); err != nil {
+			k.Violate("collect-error", "concurrent cumulative", err.Error(), nil)
+			return false
+		}
+		walk := func(rm *metricdata.ResourceMetrics, delta bool) {
+			for _, sm := range rm.ScopeMetrics {
+				for _, mt := range sm.Metrics {
+					put := func(set attribute.Set, t tot) {
+						key := mt.Name + "|" + setString(set)
+						if !delta {
+							latest[key] = &t
+							return
+						}
+						a := running[key]
+						if a == nil {
+							a = &tot{buckets: make([]uint64, len(t.buckets))}
+							running[key] = a
+						}
+						a.count += t.count
+						a.sum += t.sum
+						for i := range t.buckets {
+							a.buckets[i] += t.buckets[i]
+						}
+					}
+					switch d := mt.Data.(type) {
+					case metricdata.Histogram[float64]:
+						for _, p := range d.DataPoints {
+							put(p.Attributes, tot{p.Count, p.Sum, append([]uint64(nil), p.BucketCounts...)})
+						}
+					case metricdata.ExponentialHistogram[int64]:
+						for _, p := range d.DataPoints {
+							put(p.Attributes, tot{count: p.Count, sum: float64(p.Sum)})
+						}
+					case metricdata.Sum[int64]:
+						for _, p := range d.DataPoints {
+							put(p.Attributes, tot{sum: float64(p.Value)})
+						}
+					}
+				}
+			}
+		}
+		walk(&rd, true)
+		walk(&rc, false)
+		return true
+	}
+	close(release)
+	overlapping := 0
+	for i := 0; i < 40; i++ {
+		if !collect() {
+			return
+		}
+		overlapping++
+		runtime.Gosched()
+	}
+	wg.Wait()
+	if !collect() { // quiescent: nothing is in flight any more
+		return
+	}
+	want := float64(0)
+	_ = want
+	for key, l := range latest {
+		a := running[key]
+		if a == nil {
+			k.Violate("cumulative-vs-delta-total", "concurrent: stream never reported by the delta reader", key, nil)
+			continue
+		}
+		same := a.count == l.count && a.sum == l.sum && len(a.buckets) == len(l.buckets)
+		for i := range l.buckets {
+			if same && a.buckets[i] != l.buckets[i] {
+				same = false
+			}
+		}
+		if !same {
+			k.Violate("cumulative-vs-delta-total", "concurrent "+strings.SplitN(key, "|", 2)[0], fmt.Sprintf("%s after %d goroutines x %d records: cumulative count %d sum %v buckets %v; running delta total count %d sum %v buckets %v", key, G, per, l.count, l.sum, l.buckets, a.count, a.sum, a.buckets), nil)
+		}
+		k.C.Count("concurrent_points_compared", 1)
+	}
+	// and nothing was lost altogether
+	for _, name := range []string{"h", "e"} {
+		var n uint64
+		for key, l := range latest {
+			if strings.HasPrefix(key, name+"|") {
+				n += l.count
+			}
+		}
+		if n != uint64(G*per) {
+			k.Violate("measurements-lost", "concurrent "+name, fmt.Sprintf("cumulative count %d after %d records", n, G*per), nil)
+		}
+	}
+	k.C.Count("concurrent_histories", 1)
+	k.C.Sig(fmt.Sprintf("conc|%d|%d", G, nSets))
+	mp.Shutdown(ctx)
+}
+
+func setString(s attribute.Set) string {
+	var parts []string
+	for _, kv := range s.ToSlice() {
+		parts = append(parts, string(kv.Key)+"="+kv.Value.Emit())
+	}
+	return strings.Join(parts, ",")
+}
+
 func main() {
 	vf.Main("C08", "exploration", func(c *vf.Ctx) {
 		c.Rule = "seeded single-threaded histories of 5-60 cycles on one MeterProvider with a delta-for-everything and a cumulative ManualReader collecting at the same points: all seven instrument kinds x int64/float64 with default aggregations, histograms under a base-2 exponential view and a counter re-aggregated to an explicit histogram; in each cycle a random subset of 2-9 attribute sets is measured (sets appear, disappear, reappear); asynchronous observations are scripted per cycle and replayed by every callback invocation; instrument-level callbacks plus multi-instrument callbacks registered/unregistered between cycles, duplicate observations, observations of instruments not registered with the callback; plus wide histories: 1 600-7 000 distinct attribute sets on a counter and a histogram over 4-7 cycles, 400-900 per cycle, compared set by set. distinct = distinct (cycles class, sets, live callbacks, churn seen) signatures"
@@ -816,6 +979,8 @@ func main() {
 		otel.SetLogger(logr.Discard())
 		c.Cases("histories", c.N(2500, 40_000), 0, runHistory)
 		c.Cases("wide", c.N(48, 600), 0, runWide)
+		c.Cases("concurrent", c.N(200, 3000), 4, runConcurrent)
+		c.Floor("concurrent_histories", 100)
 		c.Floor("wide_histories", 20)
 		c.Floor("points_compared", 100_000)
 		c.Floor("async_points_compared", 50_000)
